@@ -23,6 +23,10 @@ pub enum Op {
     Len,
     AsBytes,
     StreamPosition,
+    /// continue on a clone of the cursor (the original is dropped)
+    CloneSwap,
+    /// xor a byte of the data through the mutable view (index taken modulo the length)
+    PokeMut(usize, u8),
 }
 
 /// positions at which a write is still replayed on both cursors (keeps the std model away from
@@ -68,6 +72,8 @@ pub fn op_strategy() -> impl Strategy<Value = Op> {
         1 => Just(Op::Len),
         2 => Just(Op::AsBytes),
         1 => Just(Op::StreamPosition),
+        1 => Just(Op::CloneSwap),
+        1 => (0usize..6000, 1u8..=255).prop_map(|(i, x)| Op::PokeMut(i, x)),
     ]
 }
 
@@ -137,6 +143,22 @@ pub fn run_history<A: Alignment>(ops: &[Op], with_capacity: Option<usize>) -> Re
                 s.set_position(*p);
             }
             Op::Position | Op::Len | Op::AsBytes => {}
+            Op::CloneSwap => {
+                let c = guard(|| a.clone()).map_err(|p| format!("{}: clone panicked: {}", step, p))?;
+                a = c;
+                s = s.clone();
+            }
+            Op::PokeMut(i, x) => {
+                let n = s.get_ref().len();
+                let view_len = guard(|| a.as_bytes_mut().len()).map_err(|p| format!("{}: as_bytes_mut panicked: {}", step, p))?;
+                if view_len != n {
+                    return Err(format!("{}: as_bytes_mut has {} bytes, std {}", step, view_len, n));
+                }
+                if n > 0 {
+                    a.as_bytes_mut()[i % n] ^= x;
+                    s.get_mut()[i % n] ^= x;
+                }
+            }
             Op::StreamPosition => {
                 let (ra, rs) = (io_res(a.stream_position()), io_res(s.stream_position()));
                 if ra != rs {
@@ -206,6 +228,7 @@ pub fn ops_to_json(ops: &[Op]) -> Value {
             Op::SeekCurrent(p) => json!({"SeekCurrent": p.to_string()}),
             Op::SeekEnd(p) => json!({"SeekEnd": p.to_string()}),
             Op::SetPosition(p) => json!({"SetPosition": p.to_string()}),
+            Op::PokeMut(i, x) => json!({"PokeMut": [i, x]}),
             o => json!(format!("{:?}", o)),
         })
         .collect::<Vec<_>>())
@@ -220,6 +243,7 @@ pub fn ops_from_json(v: &Value) -> Vec<Op> {
                 "Position" => Op::Position,
                 "Len" => Op::Len,
                 "AsBytes" => Op::AsBytes,
+                "CloneSwap" => Op::CloneSwap,
                 _ => Op::StreamPosition,
             });
         } else if let Some(m) = o.as_object() {
@@ -233,6 +257,7 @@ pub fn ops_from_json(v: &Value) -> Vec<Op> {
                 "SeekStart" => Op::SeekStart(num().parse().unwrap_or(0)),
                 "SeekCurrent" => Op::SeekCurrent(num().parse().unwrap_or(0)),
                 "SeekEnd" => Op::SeekEnd(num().parse().unwrap_or(0)),
+                "PokeMut" => Op::PokeMut(val[0].as_u64().unwrap_or(0) as usize, val[1].as_u64().unwrap_or(1) as u8),
                 _ => Op::SetPosition(num().parse().unwrap_or(0)),
             });
         }
